@@ -1,4 +1,6 @@
 import Skc.Model.Pelt
+import Skc.Model.Capa
+import Skc.Model.Pen
 /-! Line-protocol driver over the executable models (`lake exe skcdrv` or
     `lake env lean --run Driver.lean`): one operation per input line, one canonical output line
     per operation; ill-formed lines answer `bad-op` (never a default). Carrier: `Rat`. -/
@@ -42,10 +44,57 @@ def handlePelt (ws : List String) : String :=
     | _, _, _, _, _, _ => "bad-op"
   | _ => "bad-op"
 
+def epsBeta : Rat := 1 / 100000000   -- the `1e-8` of `penalise_savings`
+
+/-- `capa kadj n p m M delay ca cb_0..cb_{p-1} pa pb_0..pb_{p-1} <collective savings: for s<e row-major,
+    p values each> <point savings: n rows of p values>`; `cb`/`pb` lists have `p` entries (CAPA
+    passes the single 0 as p zeros — same branch); `kadj` is added to the pruning slack (0 = code)
+    → `opt […] anoms […]` -/
+def handleCapa (ws : List String) : String :=
+  match ws.mapM parseRat with
+  | none => "bad-op"
+  | some nums =>
+    match nums with
+    | kadj :: n :: p :: m :: M :: delay :: rest =>
+      let n := n.num.toNat; let p := p.num.toNat; let m := m.num.toNat; let M := M.num.toNat
+      let delay := delay.num.toNat
+      let arr := rest.toArray
+      if arr.size ≠ 2 + 2 * p + (n * (n + 1) / 2) * p + n * p ∨ p = 0 then "bad-op" else
+      let ca := arr.getD 0 0
+      let cb := (List.range p).map (fun j => arr.getD (1 + j) 0)
+      let pa := arr.getD (1 + p) 0
+      let pb := (List.range p).map (fun j => arr.getD (2 + p + j) 0)
+      let off := 2 + 2 * p
+      let csav (s e : Nat) : List Rat :=
+        (List.range p).map (fun j => arr.getD (off + (triIdx n s e) * p + j) 0)
+      let off2 := off + (n * (n + 1) / 2) * p
+      let psav (t : Nat) : List Rat := (List.range p).map (fun j => arr.getD (off2 + t * p + j) 0)
+      let PS (s e : Nat) : Rat := penalise epsBeta (csav s e) ca cb
+      let PP (t : Nat) : Rat := penalise epsBeta (psav t) pa pb
+      -- `kadj` (0 for the code) perturbs the pruning slack; used only to mine boundary inputs
+      let K : Rat := ca + sumL cb + kadj
+      let r := runCapa PS PP K m M delay n
+      s!"opt {fmtL ((List.range n).map (fun i => r.1 (i + 1)))} anoms {r.2}"
+    | _ => "bad-op"
+
+/-- `penalise p alpha b_0.. s_0..` → value;  `affected p alpha b_0.. s_0..` → column list -/
+def handlePen (aff : Bool) (ws : List String) : String :=
+  match ws.mapM parseRat with
+  | some (p :: alpha :: rest) =>
+    let p := p.num.toNat
+    if rest.length ≠ 2 * p ∨ p = 0 then "bad-op" else
+    let betas := rest.take p
+    let sav := rest.drop p
+    if aff then toString (findAffected sav alpha betas) else fmt (penalise epsBeta sav alpha betas)
+  | _ => "bad-op"
+
 def handle (line : String) : String :=
   let ws := (line.trimAscii.toString.splitOn " ").filter (· ≠ "")
   match ws with
   | "pelt" :: rest => handlePelt rest
+  | "capa" :: rest => handleCapa rest
+  | "penalise" :: rest => handlePen false rest
+  | "affected" :: rest => handlePen true rest
   | _ => "bad-op"
 
 partial def loop (h : IO.FS.Stream) : IO Unit := do
